@@ -86,6 +86,24 @@ def py_functions(build):
         for nm, sigs in cg.items():
             if nm in cent:
                 out["%s.%s" % (c.name, nm)] = {"cfunc": cent[nm][0], "sigs": sigs, "flags": cent[nm][1], "static_of": c.name}
+        # instance methods: called on an object of the extension type, they act on the C++ object the instance holds
+        ig = {}
+        for f in c.functions:
+            if f._generated or not f.wrap.python or "static" in (f.ast.storage or []) or f.ast.is_ctor() or f.ast.is_dtor():
+                continue
+            ig.setdefault(f.ast.name, []).append(Sig(f, c))
+        for nm, sigs in ig.items():
+            if nm in cent:
+                out["%s.%s" % (c.name, nm)] = {"cfunc": cent[nm][0], "sigs": sigs, "flags": cent[nm][1], "instance_of": c.name}
+        # the constructor is the type's tp_init slot
+        ctors = [Sig(f, c) for f in c.functions if not f._generated and f.wrap.python and f.ast.is_ctor()]
+        mi = re.search(r"\(initproc\)\s*(\w+)\s*,\s*/\* tp_init \*/", ctext[0])
+        if ctors and mi and mi.group(1) != "0":
+            # which slots of the type object hold a function that runs when an instance dies
+            slots = {s_: f_ for f_, s_ in re.findall(r"\(destructor\)\s*(\w+)\s*,\s*/\* (tp_dealloc|tp_del|tp_finalize) \*/", ctext[0])
+                     if f_ not in ("nullptr", "NULL", "0")}
+            out["%s.__init__" % c.name] = {"cfunc": mi.group(1), "sigs": ctors, "flags": "METH_VARARGS|METH_KEYWORDS",
+                                           "instance_of": c.name, "ctor": True, "release_slots": slots}
     return out
 
 
@@ -601,11 +619,12 @@ class PyHarness(object):
         cf = self.entry["cfunc"]
         m, fn = None, []
         for mname, mod in sorted(b.modules.items()):
-            if self.entry.get("static_of") and mname != "py%stype.cpp" % self.entry["static_of"]:
+            ofcls = self.entry.get("static_of") or self.entry.get("instance_of")
+            if ofcls and mname != "py%stype.cpp" % ofcls:
                 continue
-            if not self.entry.get("static_of") and not mname.endswith("module.cpp"):
+            if not ofcls and not mname.endswith("module.cpp"):
                 continue
-            hits = [n for n, f in mod.functions.items() if f.defined and re.match(r"^_ZL\d+%sP7_object" % re.escape(cf), n)]
+            hits = [n for n, f in mod.functions.items() if f.defined and re.match(r"^_ZL\d+%sP(7_object|\d+PY_\w+?P7_object)" % re.escape(cf), n)]
             if hits:
                 m, fn = mod, hits
         if not fn:
@@ -645,7 +664,12 @@ class PyHarness(object):
                 sret, k = argv[0], 1
             best = None
             for s in h.entry["sigs"]:
-                if s.name != qn.split("::")[-1] or len(s.params) != len(ptxt):
+                if len(s.params) != len(ptxt):
+                    continue
+                if s.is_ctor:
+                    if qn != "%s::%s" % (s.cls.name, s.cls.name):
+                        continue
+                elif s.name != qn.split("::")[-1]:
                     continue
                 ok = True
                 for p, got in zip(s.params, ptxt):
@@ -659,6 +683,9 @@ class PyHarness(object):
                     best = s
             if best is None:
                 raise Unsupported("call to %s which is not a declared signature" % dem)
+            this = None
+            if best.cls is not None and "static" not in (best.node.ast.storage or []):
+                this, k = argv[k], k + 1
             vals = []
             outs = []
             for p, v in zip(best.params, argv[k:]):
@@ -750,6 +777,7 @@ class PyHarness(object):
                     rinfo["value"] = res
                 else:
                     raise Unsupported("library result kind %s" % rp.kind())
+            rinfo["this"] = this
             rinfo["env"] = {}
             for p, v in zip(best.params, vals):
                 if v[0] == "scalar" and not z3.is_bool(v[1]) and v[1].size() == 32:
@@ -785,6 +813,20 @@ class PyHarness(object):
             self.ret = NULL
             return ex
         selfo = ex.new_obj("py_module", 64, "extern")
+        self.inst = None
+        if self.entry.get("instance_of"):
+            # an instance of the extension type: {PyObject_HEAD, <Class> *obj, int idtor}; a method finds the C++ object
+            # in `obj`; the constructor (tp_init) runs on an instance whose `obj` is still NULL, as tp_new leaves it
+            selfo = ex.new_obj("py_instance_of_%s" % self.entry["instance_of"], 32, "extern")
+            selfo.cells[0] = (8, z3.BitVecVal(1, 64))
+            if self.entry.get("ctor"):
+                selfo.cells[16] = (8, NULL)
+                selfo.cells[24] = (4, z3.BitVecVal(0, 32))
+            else:
+                self.inst = ex.new_obj("cxx_instance_of_%s" % self.entry["instance_of"], 64, "extern")
+                selfo.cells[16] = (8, Ptr(self.inst, 0))
+                selfo.cells[24] = (4, ex.fresh("instance_idtor", 32))
+        self.selfo = selfo
         self.ret = ex.call_function(fn[0], [Ptr(selfo, 0), Ptr(w.args, 0), Ptr(w.kwds, 0) if w.kwds is not None else NULL])
         return ex
 
@@ -809,6 +851,12 @@ class PyHarness(object):
         fail = None
         known = None
         returned_null = isinstance(self.ret, Ptr) and self.ret.obj is None
+        if self.entry.get("ctor"):
+            # tp_init reports failure with -1 (an exception set) and success with 0
+            rc = conc(self.ret) if not isinstance(self.ret, Ptr) else None
+            if rc is None or (rc & 0xFFFFFFFF) not in (0, 0xFFFFFFFF):
+                fail = "tp_init returns %r, neither 0 nor -1" % (self.ret,)
+            returned_null = rc is not None and (rc & 0xFFFFFFFF) == 0xFFFFFFFF
         if getattr(self, "cpython_reject", None):
             fail = self.cpython_reject
         if w.misuse:
@@ -1023,7 +1071,19 @@ class PyHarness(object):
                                 if e.check(bad) == "sat":
                                     fail = "string argument '%s' does not reach the library unchanged" % p.name
                             j += 1
-                        if not fail:
+                        if not fail and self.entry.get("instance_of") and not self.entry.get("ctor"):
+                            th = rinfo.get("this")
+                            if not (isinstance(th, Ptr) and th.obj is self.inst and conc(th.off) == 0):
+                                fail = "the method is not called on the C++ object the Python instance holds (this != self->obj)"
+                        if not fail and self.entry.get("ctor"):
+                            fail = self.check_constructed(e, rinfo, returned_null)
+                            if not fail and set(self.entry.get("release_slots", {})) <= {"tp_del"}:
+                                # CPython 3 calls tp_dealloc (and, for heap or GC types, tp_finalize) when an instance dies;
+                                # tp_del is a legacy slot that nothing calls for a static type
+                                fail = ("the instance owns the constructed object, but the function that releases it is registered in %s only: "
+                                        "CPython 3 never calls it, the C++ object outlives every instance" % (sorted(self.entry["release_slots"]) or ["no slot"])[0])
+                                known = "python-instance-never-released"
+                        elif not fail:
                             fail = self.check_result(e, sig, rinfo, returned_null)
         if self.twin and not fail:
             fail = "reachability twin"
@@ -1032,6 +1092,22 @@ class PyHarness(object):
             wt["known"] = known
             return {"cls": cls, "violation": wt, "vkey": "%s:%s" % (self.pyname, known or re.sub(r"\d+", "N", fail)[:50])}
         return {"cls": cls + ("/called" if self.calls else "/rejected"), "sample": self.witness(e.model(), None)}
+
+    def check_constructed(self, e, rinfo, returned_null):
+        if returned_null:
+            return "a valid constructor call fails (error %s)" % self.w.err
+        th = rinfo.get("this")
+        if not (isinstance(th, Ptr) and th.obj is not None and th.obj.kind == "heap" and th.obj.alloc == "new" and conc(th.off) == 0):
+            return "the constructor does not run on fresh operator new storage"
+        if not th.obj.live:
+            return "the constructed object is released before the instance can use it"
+        held = self.ex.load_ptr(Ptr(self.selfo, 16))
+        if not (isinstance(held, Ptr) and held.obj is th.obj and conc(held.off) == 0):
+            return "the instance does not hold the object its constructor created (self->obj)"
+        idt = self.ex.load_int(Ptr(self.selfo, 24), 32)
+        if e.check(idt == 0) == "sat":
+            return "the instance owns the constructed object but its destructor index is 0: the object is never released"
+        return None
 
     def check_result(self, e, sig, rinfo, returned_null):
         if returned_null:
@@ -1264,7 +1340,12 @@ def native_call(w):
                'size_t findPos(int k) { printf("LIB %d\\n", k); return (size_t) -1; }',
                'int Tally::total() { printf("LIB\\n"); return 41; }',
                'int Tally::scaled(int k) { printf("LIB %d\\n", k); return 42; }',
-               'int Tally::own() const { return 0; }',
+               'Tally::Tally(int start) { printf("LIB %d\\n", start); t = 77; }',
+               'Tally::~Tally() { printf("DTOR\\n"); }',
+               'int Tally::own() const { printf(t == 77 ? "LIB\\n" : "LIBBADTHIS\\n"); return 44; }',
+               'int Tally::bumpBy(int k, int times) { printf(t == 77 ? "LIB %d %d\\n" : "LIBBADTHIS %d %d\\n", k, times); return 43; }',
+               'void Tally::reset() { printf(t == 77 ? "LIB\\n" : "LIBBADTHIS\\n"); }',
+               'double Tally::ratio(double d) const { printf(t == 77 ? "LIB %g\\n" : "LIBBADTHIS %g\\n", d); return 3.5; }',
                'int tag(int k, std::string &label) { printf("LIB %d\\n", k); label = std::string("ab\\0cd", 5); return 100; }',
                'int countNames(char **names, int n) { printf("LIB"); for (int i = 0; i < n; i++) printf(" %s", names[i] ? names[i] : "(null)"); printf(" | %d\\n", n); return 23; }']
         with open(os.path.join(tmp, "lib.cpp"), "w") as f:
@@ -1310,10 +1391,24 @@ def native_call(w):
             kwargs = ["%s=%s" % (p.name, sample_of(j, p)) for j, p in enumerate(ins[:w["supplied"] + 1]) if j >= w["positional"] and j != hole]
         extra = ["1"] * max(0, w["positional"] - len(ins))
         call = "pyl.%s(%s)" % (w["function"], ", ".join(posargs + extra + kwargs))
-        prog = ("import sys; sys.path.insert(0, %r); import pyl\n"
-                "try:\n    r = %s\n    print('RESULT', repr(r))\nexcept BaseException as ex:\n    print('EXC', type(ex).__name__, ex)\n" % (tmp, call))
+        pre = post = ""
+        if entry.get("ctor"):
+            # construct through the type; afterwards the instance is dropped and the library's destructor must run once
+            call = "pyl.%s(%s)" % (entry["instance_of"], ", ".join(posargs + extra + kwargs))
+            post = "    sys.stdout.flush(); print('---DROP'); r = None\n    import gc; gc.collect()\n"
+        elif entry.get("instance_of"):
+            # a method of an instance built by the class's constructor (the recording library marks the object it built)
+            pre = "o = pyl.%s(9)\nprint('---CALL')\n" % entry["instance_of"]
+            call = "o.%s(%s)" % (w["function"].split(".")[-1], ", ".join(posargs + extra + kwargs))
+        prog = ("import sys; sys.path.insert(0, %r); import pyl\n%s"
+                "try:\n    r = %s\n    print('RESULT', repr(r))\n%sexcept BaseException as ex:\n    print('EXC', type(ex).__name__, ex)\n" % (tmp, pre, call, post))
         p = subprocess.run(["/venv/bin/python", "-c", prog], stdout=subprocess.PIPE, stderr=subprocess.STDOUT, universal_newlines=True, timeout=60)
         out = p.stdout
+        if "---CALL" in out:
+            out = out.split("---CALL", 1)[1]
+        dropped = None
+        if "---DROP" in out:
+            out, dropped = out.split("---DROP", 1)
         valid = any(len(in_params(s)) - sum(1 for q in in_params(s) if q.init is not None) <= w["supplied"] <= len(in_params(s))
                     for s in entry["sigs"]) and w["positional"] <= max(len(in_params(s)) for s in entry["sigs"])
         if hole >= 0:
@@ -1347,8 +1442,15 @@ def native_call(w):
             # the recording library prints what it received: the supplied arguments must arrive with the sample values
             libline = [l for l in out.splitlines() if l.startswith("LIB")]
             shown = {"int": "5", "long": "5", "double": "1.5", "bool": "1", "std::string": "ab", "char": "ab"}
+            if any(l.startswith("LIBBADTHIS") for l in libline):
+                return "%s: the method ran natively on an object other than the one the instance was constructed with" % call
             if len(libline) != 1:
                 return "%s: the library was called %d times natively" % (call, len(libline))
+            if dropped is not None and w.get("known") == "python-instance-never-released" and dropped.count("DTOR") != 1:
+                return "%s: after the instance is dropped the library's destructor ran %d times natively" % (call, dropped.count("DTOR"))
+            if dropped is not None and "destructor index is 0" in (w.get("what") or ""):
+                # natively unobservable while the type never runs its release function (the known finding above): the symbolic result stands
+                return "%s: (re-execution only) %s" % (call, w["what"])
             got = libline[0].split()[1:]
             want = [shown.get(p_.tname, "1") for p_ in ins[:w["supplied"]]]
             if hole >= 0:
@@ -1363,7 +1465,7 @@ def native_call(w):
             if got[:len(want)] != want:
                 return "%s: the library received %r natively, the call supplies %r" % (call, got, want)
             res = [l for l in out.splitlines() if l.startswith("RESULT")]
-            expect = {"bump": "(6, [4, 4])", "findPos": "18446744073709551615", "Tally.total": "41", "Tally.scaled": "42", "tag": "(100, 'ab\\x00cd')", "countNames": "23", "add": "7", "scale": "2.5", "isPositive": "True", "noArgs": "None", "getName": "'nm'", "setName": "None", "len": "3",
+            expect = {"Tally.own": "44", "Tally.bumpBy": "43", "Tally.reset": "None", "Tally.ratio": "3.5", "bump": "(6, [4, 4])", "findPos": "18446744073709551615", "Tally.total": "41", "Tally.scaled": "42", "tag": "(100, 'ab\\x00cd')", "countNames": "23", "add": "7", "scale": "2.5", "isPositive": "True", "noArgs": "None", "getName": "'nm'", "setName": "None", "len": "3",
                       "divmod": "(11, 13)", "divide": "(6, 13)", "stride": "9", "toggle": "4", "pick": "3" if w["supplied"] == 3 else "1"}
             if w["function"] == "bump" and lists:
                 li_ = [v_ for v_ in lists.values() if v_ != "not a sequence"][0]
